@@ -237,6 +237,22 @@ def run_module(res: Result, ctx: Ctx, mi: int, group, srcdir: Path, subsets: Opt
         res.evaluations += 1
         res.transitions += len(subset)
         vs = check_subset(text, mod, metas, subset)
+        if len(subset) in (1, n) or res.states % 3 == 0:
+            # the same traces through the other public entry point (a logger building the stub index directly)
+            from monkeytype.stubs import StubIndexBuilder
+
+            try:
+                sib = StubIndexBuilder(".*", 0)
+                for tr_ in traces_for(mod, metas, subset):
+                    sib.log(tr_)
+                text2 = sib.get_stubs()[modname].render()
+                vs2 = check_subset(text2, mod, metas, subset)
+                res.transitions += 1
+                for kind, sig, msg in vs2[:1]:
+                    res.violate(Violation(ID, kind, "StubIndexBuilder:" + sig, case, "via StubIndexBuilder: " + msg))
+                res.oblige("saw:StubIndexBuilder", True)
+            except Exception as e:  # noqa: BLE001
+                res.violate(Violation(ID, "exception", "StubIndexBuilder", case, f"StubIndexBuilder raised {e!r}"))
         for kind, sig, msg in vs[:2]:
             res.violate(Violation(ID, kind, sig, case, msg))
         if not vs:
@@ -392,7 +408,7 @@ def run(ctx: Ctx) -> Result:
         return res
 
     res = run_shards(ctx, shard, list(range(nshards)))
-    for o in ("special:same-named-functions", "special:interleaved-modules", "saw:wrapped-signature", "saw:posonly-separator", "saw:kwonly-separator", "saw:async"):
+    for o in ("saw:StubIndexBuilder", "special:same-named-functions", "special:interleaved-modules", "saw:wrapped-signature", "saw:posonly-separator", "saw:kwonly-separator", "saw:async"):
         res.obligations.setdefault(o, False)
     res.bounds.update({"max_params": 4 if ctx.tier == "thorough" else "3 (+4 for function/instance)", "modules": len(gs), "functions_per_module": 5, "subsets": "all 31"})
     return res
